@@ -31,10 +31,10 @@ def harness_pairs(chk, progs, tag):
 
 def run(chk, replay=None):
     quick = chk.tier == "quick"
-    n_graph = 500 if quick else 8000
-    n_block = 150 if quick else 2500
+    n_graph = 250 if quick else 8000
+    n_block = 80 if quick else 2500
     for flavour, cj in (("ne", "!="), ("gt", ">")):
-        cfg = dict(gen_progs.BASE_CFG, count_jmp=cj, scratch_int=[], scratch_float=[])
+        cfg = dict(gen_progs.BASE_CFG, count_jmp=cj)
         tcfg = "ProductDecomp_%s%s.cfg" % (flavour, "" if quick else "_wide")
         if replay:
             case = json.load(open(replay))["case"]
